@@ -663,7 +663,7 @@ func init() {
 		Level: "model_checking",
 		Rule: "(A) every program of the C06 generator (all node kinds), preceded by a line containing a multi-byte rune, in base layout and with one layout insertion (LF, CRLF, bare CR, comment, semicolon, blanks) at every site: every position field of the parsed tree against the printer's token offset, line/column against an independent scan, StartPos() inside the node; " +
 			"(B) all 9841 texts of length <=8 over {a, newline, é} x every offset -1..len+1: PosCache.LnCol == LnCol == independent scan, invalid offsets rejected; " +
-			"(C) 31 run-time faults x 16 syntactic roles x 4 nesting places: script name, 0 <= offset < len(source), offset inside the statement at fault, line/column consistent, chain = call sites; " +
+			"(C) 36 run-time faults x 16 syntactic roles x 6 places (top level, if body, else inside for-in, for body, inside a used script one and two use() levels down; after a multi-line literal and a back-quoted name containing a line break): script name, 0 <= offset < len(source), offset inside the statement at fault, line/column consistent, chain = call sites; " +
 			"(E) 8 load-time faults recorded by node constructors x 10 roles x 7 preceding texts (incl. line breaks inside tokens): positioned PlError inside the source; (D) all chains of 1..4 positions over 2 file names x 3 positions x 7 message texts (format verbs, line breaks, quotes, empty): Error() rendering verbatim, JSON round trip, Copy()+ChainAppend isolation (also with spare capacity)",
 		Assumptions: []string{"load-time error positions are decided by C08 with the same offset oracle"},
 		Run:            c17Run,
